@@ -623,7 +623,12 @@ func (w *_builderRepr) Build() datamodel.Node {
 }
 
 func (w *_builderRepr) Reset() {
-	panic("bindnode TODO: Reset")
+	// Start over on a fresh value; a node returned by an earlier Build keeps the old one.
+	w._assemblerRepr = _assemblerRepr{
+		cfg:        w.cfg,
+		schemaType: w.schemaType,
+		val:        reflect.New(w.val.Type()).Elem(),
+	}
 }
 
 type _assemblerRepr struct {
